@@ -69,16 +69,22 @@ Proof.
   intros Hit Hit' Hcfg He. apply handle_chart_deterministic; auto. apply read_days_equiv. exact He.
 Qed.
 
-(* the witness of the known finding: GoVersion "go1" in the configuration, one report *)
+(* the witness of the former finding 16 (GoVersion "go1" in the configuration,
+   one report): since fix 48ba0d4 goMajorMinor("go1") = "" and the chart is
+   produced; the report's go1.21 is not a configured version, so the
+   GoVersion chart is omitted and only GOOS/GOARCH remain *)
 Definition witness_cfg : config :=
   mkCfg [] [] [[103; 111; 49]%N] [mkPC [120%N] [] []].
 Definition witness_report : report :=
   mkReport [] 1%Z [mkProg [120%N] [] [103; 111; 49; 46; 50; 49]%N [] [] []].
 
-Lemma goversion_refuted :
-  config_wellformed witness_cfg = false /\
-  handle_chart iter_id bltb bltb witness_cfg (fun _ => ROk [witness_report]) 0 0 = ChartPanic.
-Proof. split; vm_compute; reflexivity. Qed.
+Lemma goversion_witness_charted :
+  map go_major_minor [[103; 111; 49]%N; [103%N]; []; [103; 111; 49; 50]%N; [103; 111; 49; 46; 50; 49; 46; 51]%N]
+    = [[]; []; []; []; [103; 111; 49; 46; 50; 49]%N] /\
+  exists name ps,
+    handle_chart iter_id bltb bltb witness_cfg (fun _ => ROk [witness_report]) 0 0
+      = ChartOk name (mkCD (fmt_date 0) (fmt_date 0) ps 1).
+Proof. split; [vm_compute; reflexivity|]. eexists. eexists. vm_compute. reflexivity. Qed.
 
 (* a configuration satisfying cfg_ok, and a run on it *)
 Definition example_cfg : config :=
@@ -91,7 +97,7 @@ Definition example_reports : list report :=
     mkReport [57%N] 5%Z [] ].
 
 Lemma example_cfg_ok : cfg_ok bltb bltb example_cfg.
-Proof. split; [vm_compute; reflexivity | split; apply lex_order_ok]. Qed.
+Proof. split; apply lex_order_ok. Qed.
 
 Lemma example_chart :
   exists name ps,
